@@ -120,7 +120,8 @@ int main(int argc,char **argv){
     char *sv,*tok; char *ops[256]; int nops=0,set,all=-1; long idx; struct itimerval it; static char rbuf[4096]; long live=0,nenum=0; long peak=0; long endblocks=0;
     tok=strtok_r(line," \n",&sv); if(!tok)continue; idx=atol(tok); g_idx=idx; g_enum=-1;
     tok=strtok_r(NULL," \n",&sv); if(!tok)continue; set=atoi(tok);
-    while((tok=strtok_r(NULL," \n",&sv))&&nops<255){ if(!strncmp(tok,"ALL",3))all=atoi(tok+3); else ops[nops++]=tok; }
+    int fixed0=-1;
+    while((tok=strtok_r(NULL," \n",&sv))&&nops<255){ if(!strncmp(tok,"ALL",3)){ char *c; all=(int)strtol(tok+3,&c,10); if(*c==':')fixed0=atoi(c+1); } else ops[nops++]=tok; }
     if(set<0||set>=nsets){ printf("%ld BADCASE\n",idx); continue; }
     memset(&it,0,sizeof(it)); it.it_value.tv_sec=timeout; setitimer(ITIMER_VIRTUAL,&it,NULL);
     g_exit_called=0;
@@ -132,10 +133,11 @@ int main(int argc,char **argv){
       printf("%ld R=%s L=%ld E=%ld P=%ld X=%d\n",idx,rbuf[0]?rbuf:"-",live,endblocks,peak,g_exit_called);
     }else{
       /* enumerate every byte string of length `all`; report an aggregate: distinct rc-signatures are hashed, failures counted */
-      unsigned long long total=1ULL<<(8*all),v; h128 sig; char hx[40]; long bad_end=0; long maxpeak=0; int nsig=0; static char sigs[64][128];
+      /* ALL<len>:<b0> fixes the first byte (shards the enumeration); the remaining bytes are enumerated */
+      unsigned long long total=1ULL<<(8*(fixed0>=0?all-1:all)),v; h128 sig; char hx[40]; long bad_end=0; long maxpeak=0; int nsig=0; static char sigs[64][128];
       h_init(&sig);
       for(v=0;v<total;v++){
-        unsigned char es[8]; int b; for(b=0;b<all;b++)es[b]=(v>>(8*b))&0xff;
+        unsigned char es[8]; int b; if(fixed0>=0){ es[0]=(unsigned char)fixed0; for(b=1;b<all;b++)es[b]=(v>>(8*(b-1)))&0xff; } else for(b=0;b<all;b++)es[b]=(v>>(8*b))&0xff;
         g_enum=(long)v;
         wa_reset(); wa_on=1; g_exit_armed=1;
         if(!setjmp(g_exit_jmp))run_ops(&sets[set],ops,nops,es,all,rbuf,sizeof(rbuf),&live);
